@@ -157,6 +157,22 @@ def late(r, thorough):
             silent = (inst + 1) % n if k % 2 == 0 else r.randrange(n)
             prop[silent] = -1
         out.append(cluster("late", n, inst, "attester", timer, r, start=start, prop=prop, lat=lat_matrix(r, n, 10, 250)))
+    # a member that Participates from the start and whose own proposal only arrives (Propose) long after the duty was decided
+    # with its participation - as the leader of round 1 (nobody proposes in round 1, decision in round 2) or as a follower -
+    # while another member starts later still and hears nothing of what went before: the component must still be ONE qbft
+    # process per duty (no second instance that starts again in round 1)
+    for k in range(12 if thorough else 4):
+        n = r.choice([4, 4, 6, 7])
+        inst = r.randrange(n)
+        ldr = (inst + 1) % n
+        who = ldr if k % 2 == 0 else r.choice([p for p in range(n) if p != ldr])
+        deaf = r.choice([p for p in range(n) if p not in (who, ldr, (inst + 2) % n)])
+        start, prop = offsets(r, n, 0)
+        prop[who] = r.choice([2703, 3411, 4207])
+        start[deaf] = prop[deaf] = prop[who] - r.choice([150, 0, -150]) if k % 4 < 2 else start[deaf]
+        drops = [{"type": ty, "round": rd, "to": [deaf]} for ty in ("PP", "P", "C", "RC", "D") for rd in (1, 2, 3)] if k % 4 < 2 else []
+        out.append(cluster("late_propose", n, inst, "attester", r.choice(["eager", "inc"]), r, start=start, prop=prop,
+                           lat=lat_matrix(r, n, 10, 120), drops=drops, timely=False, horizon=9000))
     return out
 
 
